@@ -148,6 +148,28 @@ fn cfg_with(family: Family, finals: &[KeyCode], repeats: &[u8], absorbing: bool,
   c
 }
 
+/// shapes with up to three other trigger keys ("any number of trigger modifiers"): finals B and A
+fn deep_cfg(family: Family, repeats: &[u8], absorbing: bool) -> ShapeCfg {
+  use KeyCode::*;
+  let mut c = full_cfg(family);
+  c.finals = vec![B, A];
+  c.modsets = vec![vec![], vec![CAPSLOCK], vec![CAPSLOCK, LEFTSHIFT], vec![CAPSLOCK, LEFTSHIFT, A]];
+  c.repeats = repeats.to_vec();
+  c.absorbing = absorbing;
+  c
+}
+
+/// a small trigger menu for triples: finals A, CAPSLOCK, LEFTSHIFT with at most one other trigger key
+fn triple_cfg(family: Family, repeats: &[u8], outputs: Vec<usize>) -> ShapeCfg {
+  use KeyCode::*;
+  let mut c = full_cfg(family);
+  c.finals = vec![A, CAPSLOCK, LEFTSHIFT];
+  c.modsets = vec![vec![], vec![CAPSLOCK], vec![LEFTSHIFT]];
+  c.repeats = repeats.to_vec();
+  c.outputs = Some(outputs);
+  c
+}
+
 fn plan_for(id: &str, tier: Tier) -> Plan {
   use KeyCode::*;
   let all_f = [A, B, CAPSLOCK, LEFTSHIFT];
@@ -166,8 +188,10 @@ fn plan_for(id: &str, tier: Tier) -> Plan {
       } else {
         gens.push(g(Family::Gen, full_cfg(Family::Gen), 2, 3, 1, "all ordered pairs of G-gen"));
         gens.push(g(Family::Dist, full_cfg(Family::Dist), 2, 3, 1, "all ordered pairs of G-dist"));
-        gens.push(g(Family::Gen, cfg_with(Family::Gen, &red_f, &[0, 1], true, Some(vec![0, 2, 3, 6])), 3, 3, 1, "all ordered triples of reduced G-gen (finals A,CAPSLOCK,LEFTSHIFT; Normal/Disabled; outputs [],[LSHIFT,X],[A],[LEFTMETA])"));
-        gens.push(g(Family::Gen, cfg_with(Family::Gen, &red_f, &[0, 1], true, Some(vec![0, 2, 3, 5, 6, 8])), 2, 8, 2, "reduced G-gen pairs with no bound on held keys, two foreign keys of each class"));
+        gens.push(g(Family::Gen, triple_cfg(Family::Gen, &[0], vec![0, 1, 2, 3, 7]), 3, 3, 1, "all ordered triples of a reduced G-gen (finals A,CAPSLOCK,LEFTSHIFT with at most one other trigger key; Normal; outputs [],[X],[LEFTSHIFT,X],[A],[LEFTSHIFT])"));
+        gens.push(g(Family::Gen, triple_cfg(Family::Gen, &[1], vec![0, 2, 3]), 3, 3, 0, "all ordered triples of the same trigger menu, Disabled, outputs [],[LEFTSHIFT,X],[A]"));
+        gens.push(g(Family::Gen, cfg_with(Family::Gen, &red_f, &[0, 1], true, Some(vec![0, 2, 3, 5, 7, 8])), 2, 8, 2, "reduced G-gen pairs with no bound on held keys, two foreign keys of each class"));
+        gens.push(g(Family::Gen, deep_cfg(Family::Gen, &[0, 1], true), 2, 4, 0, "pairs with up to three other trigger keys (finals B, A), N=4"));
       }
       let req: Vec<&'static str> = match id {
         "C02" => vec!["C02d_mapping_in_effect", "C02b_swallowed_key_physically_held"],
@@ -184,7 +208,8 @@ fn plan_for(id: &str, tier: Tier) -> Plan {
       } else {
         gens.push(g(Family::Dist, cfg_with(Family::Dist, &all_f, &[0, 1, 2], false, None), 2, 4, 1, "all ordered non-absorbing pairs of G-dist, N=4"));
         gens.push(g(Family::Dist, cfg_with(Family::Dist, &all_f, &[0, 1], false, None), 2, 8, 1, "non-absorbing pairs of G-dist (Normal/Disabled) with no bound on held keys"));
-        gens.push(g(Family::Dist, cfg_with(Family::Dist, &red_f, &[0, 1], false, None), 3, 3, 0, "all ordered non-absorbing triples of reduced G-dist"));
+        gens.push(g(Family::Dist, { let mut c = triple_cfg(Family::Dist, &[0, 1], vec![0, 1, 2, 3, 4]); c.absorbing = false; c }, 3, 3, 0, "all ordered non-absorbing triples of a reduced G-dist (finals A,CAPSLOCK,LEFTSHIFT, at most one other trigger key, Normal/Disabled)"));
+        gens.push(g(Family::Dist, deep_cfg(Family::Dist, &[0, 1], false), 2, 4, 1, "non-absorbing pairs with up to three other trigger keys (finals B, A), N=4"));
       }
       let req = if id == "C03" { vec!["C03_chord_fired", "C03_chord_fired_from_nonrest", "C03_swallowed_press", "C03_pass_through"] } else { vec!["C04_final_key_pressed", "C04_other_modifier_down"] };
       Plan { need: Need::NonAbsorbing, gens, required_antecedents: req, rule: String::new() }
@@ -198,7 +223,7 @@ fn plan_for(id: &str, tier: Tier) -> Plan {
       } else {
         gens.push(g(Family::Dist, full_cfg(Family::Dist), 2, 3, 1, "all ordered pairs of G-dist containing such a mapping"));
         gens.push(g(Family::Gen, cfg_with(Family::Gen, &red_f, reps, true, Some(vec![0, 1, 2, 3, 5, 6])), 2, 3, 1, "ordered pairs of reduced G-gen containing such a mapping"));
-        gens.push(g(Family::Dist, cfg_with(Family::Dist, &red_f, if id == "C07" { &[0, 1] } else { &[0, 2] }, true, Some(vec![0, 1, 3])), 3, 3, 0, "ordered triples of reduced G-dist containing such a mapping"));
+        gens.push(g(Family::Dist, triple_cfg(Family::Dist, if id == "C07" { &[0, 1] } else { &[0, 2] }, vec![0, 1, 3]), 3, 3, 0, "ordered triples of a reduced G-dist (at most one other trigger key) containing such a mapping"));
       }
       let req = if id == "C07" { vec!["C07_norepeat_fired", "C07_norepeat_fired_with_keys_held", "C07_steps_while_nr"] } else { vec!["C09_repeating_issued", "C09_ignored_events"] };
       Plan { need, gens, required_antecedents: req, rule: String::new() }
@@ -211,7 +236,8 @@ fn plan_for(id: &str, tier: Tier) -> Plan {
       } else {
         gens.push(g(Family::Dist, full_cfg(Family::Dist), 2, 3, 1, "all ordered pairs of G-dist with an absorbing mapping"));
         gens.push(g(Family::Gen, cfg_with(Family::Gen, &red_f, &[0, 1], true, Some(vec![0, 1, 2, 3, 5, 6])), 2, 3, 1, "ordered pairs of reduced G-gen with an absorbing mapping"));
-        gens.push(g(Family::Dist, cfg_with(Family::Dist, &red_f, &[0], true, Some(vec![0, 2, 3, 4])), 3, 3, 0, "ordered triples of reduced G-dist (Normal) with an absorbing mapping"));
+        gens.push(g(Family::Dist, triple_cfg(Family::Dist, &[0], vec![0, 2, 3, 4]), 3, 3, 0, "ordered triples of a reduced G-dist (at most one other trigger key, Normal) with an absorbing mapping"));
+        gens.push(g(Family::Dist, deep_cfg(Family::Dist, &[0], true), 2, 4, 0, "pairs with up to three other trigger keys and every absorbing subset (finals B, A), N=4"));
         gens.push(g(Family::Dist, cfg_with(Family::Dist, &red_f, &[0, 1], true, None), 2, 8, 1, "reduced G-dist pairs with no bound on held keys"));
       }
       Plan { need: Need::Absorbing, gens, required_antecedents: vec!["C08_absorbing_mapping_fired", "C08_press_while_absorbed", "C08b_nonmod_press_while_absorbed", "C08c_trigger_repressed", "C08d_unabsorbed_modifier_counts"], rule: String::new() }
